@@ -303,6 +303,9 @@ def check_bin_script(spec, ctx, methods=('fixed-point', 'newton'), flags=('', '-
         nstart = int(zt.numel())
         variant = (len(spec['rules']) + nstart) % 3          # 0: -G   1: -G -o   2: -w ... -g -e -o (expected counts need -w)
         use_o = variant in (1, 2); use_e = variant == 2
+        # -t prints the sum-product of every nonterminal (one line each, unlabelled) instead of the start symbol's; gradients and
+        # expectations must still be those of the start symbol (seeded change C03-9)
+        use_t = (len(spec['terminals']) + len(spec['nonterminals'])) % 2 == 0
         ow = [0.5 + 0.25 * ((3 * i + 1) % 5) for i in range(nstart)]
         g0 = None; e0 = None
         if differentiable:
@@ -334,6 +337,7 @@ def check_bin_script(spec, ctx, methods=('fixed-point', 'newton'), flags=('', '-
                     cmd += ['-g', '-e']
                 elif fgg.factors:
                     cmd += ['-G']
+                if use_t: cmd += ['-t']
                 if use_o and fgg.factors:
                     cmd += ['-o', json.dumps(np.asarray(ow).reshape(tuple(zt.shape)).tolist())]
                 p = subprocess.run(cmd, env=env, cwd=d, capture_output=True, text=True, timeout=300)
@@ -345,12 +349,16 @@ def check_bin_script(spec, ctx, methods=('fixed-point', 'newton'), flags=('', '-
             ctx.require(script_outputs_agree(outs[(method, flag)], base), 'assert-dependent-behaviour',
                         f'bin/sum_product.py -m {method}: python gives rc={base[0]} {base[1][:300]!r}, python {flag} gives rc={outs[(method, flag)][0]} {outs[(method, flag)][1][:300]!r}', flag=flag)
         if ctx.require(base[0] == 0 and base[1], 'bin-script-failed', f'bin/sum_product.py -m {method}: rc={base[0]} {base[1][:300]}'):
+            zlines = [l for l in base[1].splitlines() if not l.startswith('grad[') and not l.startswith('E[#')] if use_t else base[1].splitlines()[:1]
+            ok = False; zf = None
             try:
-                z = json.loads(base[1].splitlines()[0])
-                zf = [z] if not isinstance(z, list) else list(np.asarray(z, dtype=float).reshape(-1))
+                for zl in zlines:      # with -t: one of the unlabelled lines is the start symbol's
+                    z = json.loads(zl)
+                    zf = [z] if not isinstance(z, list) else list(np.asarray(z, dtype=float).reshape(-1))
+                    ok = ok or (len(zf) == len(z0) and all(abs(a - b) <= 1e-6 * (1 + abs(b)) or (a == b) for a, b in zip(zf, z0)))
             except Exception as e:
                 ctx.violation('bin-output-unparsable', f'{base[1][:200]}'); continue
-            ok = len(zf) == len(z0) and all(abs(a - b) <= 1e-6 * (1 + abs(b)) or (a == b) for a, b in zip(zf, z0))
+            if use_t: ctx.label('bin-script-trace')
             ctx.require(ok, 'bin-value-differs', f'bin/sum_product.py -m {method} prints {zf}, in-process sum_product gives {z0}')
             # gradient lines "grad[name]: <nested list>" against the in-process gradient with the same cotangent
             if g0 is not None and fgg.factors:
